@@ -65,6 +65,13 @@ def lib():
     return _L
 
 
+def dtype_ctx(f32):
+    """float32 (liesel's default dtype): x64 switched off for the duration of the call; else the process-wide x64 mode"""
+    import contextlib
+    from jax.experimental import disable_x64
+    return disable_x64() if f32 else contextlib.nullcontext()
+
+
 def size(shape) -> int:
     return int(math.prod(shape)) if len(shape) else 1
 
@@ -121,25 +128,34 @@ def observe_coords(keys, via_kernel=True):
     return out
 
 
-def hist_arrays(hist):
+def hist_arrays(hist, f32=False):
     L = lib()
     np, jnp = L["np"], L["jnp"]
+    dt = np.float32 if f32 else np.float64
     out = {}
     for name, shape, rows in hist:
         a = np.array([[float(x) for x in r] for r in rows], dtype=np.float64).reshape((len(rows), size(shape)))
-        out[name] = jnp.asarray(a.reshape((len(rows),) + tuple(shape)))
+        assert not f32 or np.array_equal(a.astype(np.float32).astype(np.float64), a), "history not exact in float32"
+        out[name] = jnp.asarray(a.astype(dt).reshape((len(rows),) + tuple(shape)))
     return out
 
 
 def call_code(c, keys=None, hist=None):
     """run the real code on a direct case; returns dict(valid, err, new, step)"""
+    with dtype_ctx(c.get("f32", False)):
+        return _call_code(c, keys, hist)
+
+
+def _call_code(c, keys, hist):
     L = lib()
     jnp, np, gs = L["jnp"], L["np"], L["gs"]
     keys = c["keys"] if keys is None else keys
     hist = c["hist"] if hist is None else hist
     names = [k for k, _ in keys]
     n = sum(size(s) for _, s in keys)
-    H = hist_arrays(hist)
+    f32 = c.get("f32", False)
+    fdt = jnp.float32 if f32 else jnp.float64
+    H = hist_arrays(hist, f32)
     T = len(hist[0][2]) if hist else 0
     res = {"valid": False, "err": None, "new": None, "step": None}
     try:
@@ -152,10 +168,10 @@ def call_code(c, keys=None, hist=None):
             S = L["NUTSKernelState"] if c["level"] == "nuts" else L["HMCKernelState"]
             kern = K(list(names), mm_diag=c["diag"])
             kern.set_model(gs.DictInterface(lambda st: 0.0))
-            st = S(jnp.float64(float(c["old_step"])), jnp.asarray(np.array([[float(v) for v in r] for r in c["old_imm"]] if not c["diag"] else [float(v) for v in c["old_imm"]], dtype=np.float64)))
-            ms = {k: jnp.zeros(tuple(s), dtype=jnp.float64) for k, s in keys}
+            st = S(fdt(float(c["old_step"])), jnp.asarray(np.array([[float(v) for v in r] for r in c["old_imm"]] if not c["diag"] else [float(v) for v in c["old_imm"]], dtype=np.float64), dtype=fdt))
+            ms = {k: jnp.zeros(tuple(s), dtype=fdt) for k, s in keys}
             for name, shape, _ in hist:
-                ms.setdefault(name, jnp.zeros(tuple(shape), dtype=jnp.float64))
+                ms.setdefault(name, jnp.zeros(tuple(shape), dtype=fdt))
             ep = L["EpochConfig"](L["EpochType"](ETYPES[c["etype"]]), max(T, 1), 1, None).to_state(1, 0)
             out = kern.tune(L["jax"].random.PRNGKey(0), st, ms, ep, H if c["hashist"] else None)
             new = out.kernel_state.inverse_mass_matrix
@@ -164,6 +180,9 @@ def call_code(c, keys=None, hist=None):
         # KeyError: an own key is missing in the history; TypeError: lax.cond refuses branches of different shapes
         # (jnp.cov of a single recorded row yields a 1x1 matrix).  The model says "no matrix" (None) for these.
         res["err"] = type(ex).__name__
+        return res
+    if f32 and (str(new.dtype) != "float32"):
+        res["err"] = f"dtype {new.dtype} in float32 mode"
         return res
     new = np.asarray(new)
     want = (n,) if c["diag"] else (n, n)
@@ -219,20 +238,29 @@ def close(a, b):
     return abs(a - b) <= Fraction(1, 10 ** 6) * abs(a) + Fraction(1, 10 ** 9)
 
 
-def mat_mismatch(diag, want, got):
-    """first entry where the observed matrix differs from the wanted one"""
+T32 = Fraction(1, 1000)
+
+
+def mat_mismatch(diag, want, got, f32=False):
+    """first entry where the observed matrix differs from the wanted one.  float64 runs: 1e-6 relative + 1e-9;
+    float32 runs: 1e-3 relative, off-diagonal entries at the scale (a_ii + a_jj) / 2 of their two variances"""
     if diag:
         if len(want) != len(got):
             return f"length {len(got)} instead of {len(want)}"
         for i, (a, b) in enumerate(zip(want, got)):
-            if not close(a, fr(b)):
+            a = fr(a)
+            if not (abs(a - fr(b)) <= T32 * abs(a) if f32 else close(a, fr(b))):
                 return i, float(a), float(fr(b))
         return None
     if len(want) != len(got):
         return f"{len(got)} rows instead of {len(want)}"
     for i, (ra, rb) in enumerate(zip(want, got)):
+        if len(ra) != len(rb):
+            return f"row {i} of length {len(rb)} instead of {len(ra)}"
         for j, (a, b) in enumerate(zip(ra, rb)):
-            if not close(a, fr(b)):
+            a = fr(a)
+            ok = (abs(a - fr(b)) <= T32 * (abs(a) + (abs(fr(want[i][i])) + abs(fr(want[j][j]))) / 2)) if f32 else close(a, fr(b))
+            if not ok:
                 return (i, j), float(a), float(fr(b))
     return None
 
@@ -259,7 +287,7 @@ def oracle(c):
     if not retunes(c):
         if not c["valid"]:
             return f"tune on a non-slow epoch / without history failed: {c['err']}"
-        if mat_mismatch(c["diag"], c["old_imm"], c["new"]) or not close(fr(c["old_step"]), fr(c["step"])):
+        if mat_mismatch(c["diag"], c["old_imm"], c["new"], c.get("f32", False)) or not close(fr(c["old_step"]), fr(c["step"])):
             return "kernel state changed although the epoch is not a slow adaptation epoch with a history"
         return None
     want = spec_matrix(c["diag"], c["hist"], c["coords"]) if own_ok else None
@@ -270,25 +298,26 @@ def oracle(c):
     if not c["valid"]:
         return (f"{c['level']} tune(mm_diag={c['diag']}) with keys listed as {[k for k, _ in c['keys']]} and a history over "
                 f"{[e[0] for e in c['hist']]} ({c['T']} rows) returned no finite matrix of the expected shape: {c['err']}")
-    mm = mat_mismatch(c["diag"], want, c["new"])
+    f32 = c.get("f32", False)
+    mm = mat_mismatch(c["diag"], want, c["new"], f32)
     if mm:
         if isinstance(mm, str):
             return "tuned inverse mass matrix has " + mm
         i, a, b = mm
         who = c["coords"][i] if c["diag"] else (c["coords"][i[0]], c["coords"][i[1]])
-        return (f"entry {i} of the tuned inverse mass matrix is {b}, but the regularised sample "
+        return (("float32 run: " if f32 else "") + f"entry {i} of the tuned inverse mass matrix is {b}, but the regularised sample "
                 f"{'variance' if c['diag'] else 'covariance'} of flat coordinate {i} = {who} of the kernel's position is {a} "
                 f"(keys listed as {[k for k, _ in c['keys']]})")
     if c["level"] != "fn":
         lhs = fr(c["step"]) ** 2 * trace_of(c["diag"], want)
         rhs = fr(c["old_step"]) ** 2 * trace_of(c["diag"], c["old_imm"])
-        if abs(lhs - rhs) > Fraction(1, 10 ** 6) * abs(rhs):
+        if abs(lhs - rhs) > (4 * T32 if f32 else Fraction(1, 10 ** 6)) * abs(rhs):
             return f"step size {float(fr(c['step']))} is not old step * sqrt(trace old / trace new) = {math.sqrt(float(rhs / trace_of(c['diag'], want)))}"
     ref = c.get("ref")
     if ref:
         if not ref["valid"]:
             return f"twin run ({ref['why']}) failed: {ref['err']}"
-        if mat_mismatch(c["diag"], [fr(v) for v in c["new"]] if c["diag"] else [[fr(v) for v in r] for r in c["new"]], ref["new"]):
+        if mat_mismatch(c["diag"], [fr(v) for v in c["new"]] if c["diag"] else [[fr(v) for v in r] for r in c["new"]], ref["new"], f32):
             return f"tuned matrix depends on {ref['why']}"
     return None
 
@@ -306,17 +335,18 @@ def oracle_run(c):
             want = spec_matrix(c["diag"], h, c["coords"])
             if want is None:
                 return f"epoch {n}: the recorded chain does not contain the kernel's keys"
-            mm = mat_mismatch(c["diag"], want, obs)
+            mm = mat_mismatch(c["diag"], want, obs, c["cfg"].get("f32", False))
             if mm:
                 if isinstance(mm, str):
                     return "tuned inverse mass matrix has " + mm
                 i, a, b = mm
-                return (f"engine run, chain {c['chain']}, kernel {c['kernel']} (keys {[k for k, _ in c['keys']]}): after slow epoch "
+                who = c["coords"][i] if c["diag"] else (c["coords"][i[0]], c["coords"][i[1]])
+                return (("float32 " if c["cfg"].get("f32") else "") + f"engine run, chain {c['chain']}, kernel {c['kernel']} (keys {[k for k, _ in c['keys']]}): after slow epoch "
                         f"#{n} entry {i} of the inverse mass matrix is {b}, the regularised sample (co)variance of flat "
-                        f"coordinate {i} over that epoch's chain is {a}  [kernel sequence {[k['cls'] for k in c['cfg']['kernels']]}, "
+                        f"coordinate {i} = {who} over that epoch's chain is {a}  [kernel sequence {[k['cls'] for k in c['cfg']['kernels']]}, "
                         f"epochs {c['cfg']['epochs']}]")
         else:
-            if mat_mismatch(c["diag"], prev, obs):
+            if mat_mismatch(c["diag"], prev, obs, c["cfg"].get("f32", False)):
                 return f"inverse mass matrix changed after non-slow adaptation epoch {n}"
         prev = obs
     return None
@@ -332,6 +362,29 @@ def dy(rnd, lo, hi, den):
 def gen_rows(rnd, T, n):
     scales = [Fraction(2) ** rnd.randint(-2, 6) for _ in range(n)]
     return [[scales[j] * rnd.randint(-32, 32) / 4 for j in range(n)] for _ in range(T)]
+
+
+def gen_rows_offcentre(rnd, T, n):
+    """float32-exact rows; about half of the coordinates sit far from zero: |mean| = 1e2 .. 1e4 times the spread (both signs),
+    the others are centred at zero"""
+    np = lib()["np"]
+    cols = []
+    for j in range(n):
+        while True:
+            s = Fraction(2) ** rnd.randint(-4, 1)
+            dev = [s * rnd.randint(-32, 32) / 4 for _ in range(T)]
+            if rnd.random() < 0.45:
+                m = Fraction(0)
+            else:
+                spread = float(s) * 4.6
+                m = Fraction(rnd.choice([-1, 1]) * rnd.choice([128, 300, 1000, 2000, 2048, 5000, 10000, 20000]))
+                if not (1e2 <= abs(float(m)) / spread <= 1e4):
+                    continue
+            col = [m + d for d in dev]
+            if all(Fraction(float(np.float32(float(v)))) == v for v in col):
+                cols.append(col)
+                break
+    return [[cols[j][t] for j in range(n)] for t in range(T)]
 
 
 def order_stratum(rnd, stratum):
@@ -396,8 +449,10 @@ def gen_direct(rnd, stratum, force=None):
     if level == "fn":
         keys = sorted(keys, key=lambda kv: kv[0])        # only pytree-ordered dicts at function level
         stratum = "fn-sorted-dict"
-    entries = [[nm, list(s), gen_rows(rnd, T, size(s))] for nm, s in keys]
-    entries += [[nm, list(s), gen_rows(rnd, T, size(s))] for nm, s in ((o, rnd.choice(SHAPES)) for o in others)]
+    f32 = force.get("f32", False)
+    rows_fn = gen_rows_offcentre if f32 else gen_rows
+    entries = [[nm, list(s), rows_fn(rnd, T, size(s))] for nm, s in keys]
+    entries += [[nm, list(s), rows_fn(rnd, T, size(s))] for nm, s in ((o, rnd.choice(SHAPES)) for o in others)]
     rnd.shuffle(entries)
     if level == "fn":
         entries.sort(key=lambda e: e[0])
@@ -418,7 +473,7 @@ def gen_direct(rnd, stratum, force=None):
             for j in range(i):
                 old_imm[i][j] = old_imm[j][i] = dy(rnd, -4, 4, 16)
     return {"kind": "direct", "level": level, "keys": keys, "diag": diag, "etype": etype, "hashist": hashist,
-            "hist": entries, "old_step": old_step, "old_imm": old_imm, "stratum": stratum, "T": T, "missing": missing}
+            "hist": entries, "old_step": old_step, "old_imm": old_imm, "stratum": stratum, "T": T, "missing": missing, "f32": f32}
 
 
 def observe_direct(rnd, c, twin=True):
@@ -435,8 +490,9 @@ def observe_direct(rnd, c, twin=True):
             c["ref"] = {"why": "the order in which the position keys are listed", "keys": keys2, **call_code(c, keys=keys2)}
         elif r < 0.27:
             own = {k for k, _ in c["keys"]}
-            hist2 = [e if e[0] in own else [e[0], e[1], gen_rows(rnd, len(e[2]), size(e[1]))] for e in c["hist"]]
-            hist2 = [e for e in hist2 if e[0] in own or rnd.random() < 0.7] + [["extra_kernel_par", [2], gen_rows(rnd, c["T"], 2)]]
+            rows_fn = gen_rows_offcentre if c.get("f32") else gen_rows
+            hist2 = [e if e[0] in own else [e[0], e[1], rows_fn(rnd, len(e[2]), size(e[1]))] for e in c["hist"]]
+            hist2 = [e for e in hist2 if e[0] in own or rnd.random() < 0.7] + [["extra_kernel_par", [2], rows_fn(rnd, c["T"], 2)]]
             rnd.shuffle(hist2)
             c["ref"] = {"why": "the history of other kernels' parameters / the order of the history dict", "hist": hist2,
                         **call_code(c, hist=hist2)}
@@ -490,6 +546,13 @@ def generate(ctx):
     for T in (1, 1, 2, 2):
         for diag in (True, False):
             cases.append(observe_direct(rnd, gen_direct(rnd, "non-alphabetical", force={"T": T, "diag": diag, "etype": "slow", "level": rnd.choice(["nuts", "hmc"])})))
+    # float32 (liesel's default dtype) with off-centre histories: kernels' tune and the functions, diag and dense
+    n32 = 26 if ctx.quick else 220
+    for k in range(n32):
+        st = rnd.choice(["non-alphabetical", "non-alphabetical", "case-mixed", "prefix", "sorted", "single"])
+        cases.append(observe_direct(rnd, gen_direct(rnd, st, force={"f32": True, "diag": k % 2 == 0, "etype": "slow",
+                                                                    "T": rnd.choice([3, 4, 6, 8, 12, 16]),
+                                                                    "level": ["nuts", "hmc", "nuts", "hmc", "fn"][k % 5]})))
     nbj = sum(1 for c in cases if not c["bj_same"])
     ctx.tested_not_proved.append(
         f"blackjax pairs entry i of the inverse mass vector with component i of ravel_pytree(kernel.position(state)) "
@@ -508,6 +571,7 @@ def generate(ctx):
     for c in cases:
         if c["kind"] == "direct":
             ctx.hist("order=" + c["stratum"])
+            ctx.hist("dtype=" + ("float32, off-centre history" if c.get("f32") else "float64"))
             ctx.hist("level=" + c["level"])
             ctx.hist("mode=" + ("diag" if c["diag"] else "dense"))
             ctx.hist("epoch=" + c["etype"] + ("" if c["hashist"] else ",history=None"))
@@ -520,6 +584,7 @@ def generate(ctx):
                 ctx.hist("twin:" + c["ref"]["why"].split(" ")[1])
         elif c["kind"] == "run":
             ctx.hist("engine-run kernel=" + c["cls"] + (",diag" if c["diag"] else ",dense"))
+            ctx.hist("engine-run dtype=" + ("float32, off-centre target" if c["cfg"].get("f32") else "float64"))
             ctx.hist("engine-run slow epochs=" + str(sum(1 for s, _ in c["epochs"] if s)))
             kinds = [k["cls"] for k in c["cfg"]["kernels"]]
             if any(x in ("rw", "gibbs") for x in kinds[:c["kernel"]]):
@@ -539,11 +604,12 @@ def generate(ctx):
     ctx.assume += ["position key names are distinct (EngineBuilder.build rejects duplicates across kernels)",
                    "ravel_pytree / tree_leaves visit dict entries in sorted key order and ravel each leaf in C order (observed per case: i_coords = flat_coords)",
                    "jnp.sqrt is an oracle: the supplied root is checked to square to the model's trace ratio (1e-9 relative)",
-                   "float64 arithmetic of jnp.var / jnp.cov is real arithmetic within 1e-6 relative + 1e-9 absolute on dyadic inputs"]
+                   "float64 arithmetic of jnp.var / jnp.cov is real arithmetic within 1e-6 relative + 1e-9 absolute on dyadic inputs",
+                   "float32 arithmetic of jnp.var / jnp.cov is real arithmetic within 1e-3 relative (off-diagonal covariances: relative to the mean of their two variances) on float32-exact histories whose means are up to 1e4 times their spread"]
     ctx.tested_not_proved.append("tuned matrix unchanged under re-listing the keys / changing other kernels' history: metamorphic twin runs of the real kernels (the theorem covers the model)")
     ctx.tested_not_proved.append("jit / vmap / lax.cond dispatch of TuningMixin.tune (exercised eagerly with lax.cond and, in the engine runs, under jit+vmap)")
     ctx.extra_tb = ["blackjax (use of the inverse mass matrix on ravel_pytree(position)) is modelled, its pairing of entries and coordinates is observed on every key configuration",
-                    "float32 runs are not compared (the check enables jax_enable_x64 so that 1e-6 relative is meaningful)"]
+                    "float64 runs (jax_enable_x64) are compared at 1e-6 relative, float32 runs (x64 disabled around the call) at 1e-3 relative"]
     return cases
 
 
@@ -561,14 +627,21 @@ def run_configs(rnd, quick):
     # forced strata of the engine run (always, also in quick): a kernel without history-based tuning (RW) listed BEFORE the
     # NUTS kernel and another one (Gibbs) in the MIDDLE, before the HMC kernel; two consecutive slow epochs with IDENTICAL
     # configs (and, the chain having moved, different histories); two fast epochs with identical configs
-    cfgs = [{
+    # ... and it runs in float32 (liesel's default dtype) on a target with off-centre coordinates (|mean| / sd = 2400 .. 4000,
+    # both signs) next to zero-centred ones, in the diagonal NUTS kernel and in the dense HMC kernel
+    base = {
         "seed": 11, "chains": 2,
         "kernels": [{"cls": "rw", "keys": [["r", []]]},
                     {"cls": "nuts", "keys": [["zeta", []], ["alpha", [2]]], "diag": True},
                     {"cls": "gibbs", "keys": [["g", []]]},
                     {"cls": "hmc", "keys": [["b", [2]], ["B", []]], "diag": False}],
         "epochs": [["fast", 8], ["slow", 16], ["slow", 16], ["fast", 8], ["posterior", 8]],
-    }]
+    }
+    cfgs = [dict(base, f32=True,
+                 loc={"zeta": 2000.0, "alpha": [0.0, -300.0], "b": [0.0, 1000.0], "B": 0.0, "r": 0.0, "g": 0.0},
+                 sd={"zeta": 0.5, "alpha": [1.0, 0.125], "b": [2.0, 0.25], "B": 1.0, "r": 1.0, "g": 1.0})]
+    if not quick:
+        cfgs.append(base)            # the same strata in float64, zero-centred
     if not quick:
         cfgs.append({
             "seed": 12, "chains": 2,
@@ -603,19 +676,35 @@ def run_configs(rnd, quick):
 
 
 def observe_run(cfg):
-    """run the real engine; one case per (chain, kernel)"""
+    """run the real engine; one case per (chain, kernel) and one per chain for the whole sequence"""
+    lib()
+    coords = {ki: observe_coords(k["keys"]) for ki, k in enumerate(cfg["kernels"]) if k["cls"] in ("nuts", "hmc")}
+    with dtype_ctx(cfg.get("f32", False)):
+        return _observe_run(cfg, coords)
+
+
+def _observe_run(cfg, coords_of_kernel):
     L = lib()
     jax, jnp, np, gs = L["jax"], L["jnp"], L["np"], L["gs"]
     E, EC = L["EpochType"], L["EpochConfig"]
     rnd = random.Random(cfg["seed"])
     allkeys = [kv for k in cfg["kernels"] for kv in k["keys"]]
+    fdt = jnp.float32 if cfg.get("f32") else jnp.float64
     sc = {nm: np.array([2.0 ** rnd.randint(-3, 3) for _ in range(size(s))]).reshape(tuple(s)) for nm, s in allkeys}
-    init = {nm: jnp.asarray(np.array([rnd.randint(-4, 4) / 8 for _ in range(size(s))]).reshape(tuple(s)) * sc[nm]) for nm, s in allkeys}
-    init["fixed_data"] = jnp.float64(1.0)
-    scj = {k: jnp.asarray(v) for k, v in sc.items()}
+    loc = {nm: np.zeros(tuple(s)) for nm, s in allkeys}
+    for nm, s in allkeys:
+        if nm in cfg.get("sd", {}):
+            sc[nm] = np.array(cfg["sd"][nm], dtype=np.float64).reshape(tuple(s))
+        if nm in cfg.get("loc", {}):
+            loc[nm] = np.array(cfg["loc"][nm], dtype=np.float64).reshape(tuple(s))
+    init = {nm: jnp.asarray(loc[nm] + np.array([rnd.randint(-4, 4) / 8 for _ in range(size(s))]).reshape(tuple(s)) * sc[nm], dtype=fdt)
+            for nm, s in allkeys}
+    init["fixed_data"] = fdt(1.0)
+    scj = {k: jnp.asarray(v, dtype=fdt) for k, v in sc.items()}
+    locj = {k: jnp.asarray(v, dtype=fdt) for k, v in loc.items()}
 
     def lp(st):
-        return -0.5 * sum(jnp.sum((st[k] / scj[k]) ** 2) for k in scj)
+        return -0.5 * sum(jnp.sum(((st[k] - locj[k]) / scj[k]) ** 2) for k in scj)
 
     b = gs.EngineBuilder(seed=cfg["seed"], num_chains=cfg["chains"])
     b.set_model(gs.DictInterface(lp))
@@ -628,7 +717,7 @@ def observe_run(cfg):
         elif k["cls"] == "gibbs":
             def tf(prng_key, model_state, names=names):
                 ks_ = jax.random.split(prng_key, len(names))
-                return {nm: scj[nm] * jax.random.normal(ks_[j], jnp.shape(model_state[nm]), dtype=jnp.float64) for j, nm in enumerate(names)}
+                return {nm: locj[nm] + scj[nm] * jax.random.normal(ks_[j], jnp.shape(model_state[nm]), dtype=fdt) for j, nm in enumerate(names)}
             kern = gs.GibbsKernel(names, tf)
         else:
             K = gs.NUTSKernel if k["cls"] == "nuts" else gs.HMCKernel
@@ -658,13 +747,15 @@ def observe_run(cfg):
 
     def imm_at(i, ki, ch):
         """matrix of kernel ki stored for the first iteration of engine epoch i (0 = INITIAL_VALUES)"""
+        if cfg.get("f32"):
+            assert str(kc.combine([i]).unwrap()[ki].inverse_mass_matrix.dtype) == "float32", "float32 run produced another dtype"
         return finite_fracs(np.asarray(kc.combine([i]).unwrap()[ki].inverse_mass_matrix)[ch, 0])
 
     hists = {(i, ch): chain_of(i, ch) for i, (t, _) in enumerate(cfg["epochs"]) if t == "slow" for ch in range(cfg["chains"])}
     for ki, k in enumerate(cfg["kernels"]):
         if not ismm[ki]:
             continue
-        coords, same = observe_coords(k["keys"])
+        coords, same = coords_of_kernel[ki]
         for ch in range(cfg["chains"]):
             epochs, obs = [], []
             for i in adapt:
@@ -745,40 +836,31 @@ def eng_lit(c):
 
 def emit(ctx, cases):
     shards = []
-    d = [i for i, c in enumerate(cases) if c["kind"] == "direct"]
-    r = [i for i, c in enumerate(cases) if c["kind"] == "run" and not c.get("crash")]
-    for k in range(0, len(d), SHARD):
-        idxs = d[k:k + SHARD]
-        txt = HEADER + f"""
-Definition cases : list mcase := {lst(direct_lit(cases[i]) for i in idxs)}.
-Lemma shard_ok : forallb (agrees Sorted) cases = true.
+
+    def is32(c):
+        return bool(c.get("f32") or c.get("cfg", {}).get("f32"))
+
+    plan = [("direct", False, "mcase", "agrees Sorted", direct_lit, SHARD), ("direct", True, "mcase", "agrees32 Sorted", direct_lit, SHARD),
+            ("run", False, "rcase", "agrees_run Sorted", run_lit, 4), ("run", True, "rcase", "agrees_run32 Sorted", run_lit, 4),
+            ("eng", False, "ecase", "agrees_engine Sorted", eng_lit, 4), ("eng", True, "ecase", "agrees_engine32 Sorted", eng_lit, 4)]
+    for kind, f32, ty, pred, lit, per in plan:
+        sel = [i for i, c in enumerate(cases) if c["kind"] == kind and is32(c) == f32 and not c.get("crash")]
+        for k in range(0, len(sel), per):
+            idxs = sel[k:k + per]
+            txt = HEADER + f"""
+Definition cases : list {ty} := {lst(lit(cases[i]) for i in idxs)}.
+Lemma shard_ok : forallb ({pred}) cases = true.
 Proof. vm_compute. reflexivity. Qed.
 """
-        shards.append((ctx.new_shard(txt), idxs))
-    for k in range(0, len(r), 4):
-        idxs = r[k:k + 4]
-        txt = HEADER + f"""
-Definition cases : list rcase := {lst(run_lit(cases[i]) for i in idxs)}.
-Lemma shard_ok : forallb (agrees_run Sorted) cases = true.
-Proof. vm_compute. reflexivity. Qed.
-"""
-        shards.append((ctx.new_shard(txt), idxs))
-    g = [i for i, c in enumerate(cases) if c["kind"] == "eng"]
-    for k in range(0, len(g), 4):
-        idxs = g[k:k + 4]
-        txt = HEADER + f"""
-Definition cases : list ecase := {lst(eng_lit(cases[i]) for i in idxs)}.
-Lemma shard_ok : forallb (agrees_engine Sorted) cases = true.
-Proof. vm_compute. reflexivity. Qed.
-"""
-        shards.append((ctx.new_shard(txt), idxs))
+            shards.append((ctx.new_shard(txt), idxs))
     return shards
 
 
 def diagnose(ctx, path, idxs, cases):
     src = open(path).read()
     txt = src.split("Lemma shard_ok")[0]
-    pred = "agrees_run Sorted" if "list rcase" in src else "agrees_engine Sorted" if "list ecase" in src else "agrees Sorted"
+    import re as _re
+    pred = _re.search(r"forallb \((.*?)\) cases", src).group(1)
     txt += f"Eval vm_compute in (failing ({pred}) cases).\n"
     ok, out = ctx.coq_eval(txt)
     return [idxs[j] for j in common.parse_nat_list(out) if j < len(idxs)]
